@@ -1,3 +1,4 @@
+import XcmModel.Lemmas.Btls
 import XcmModel.Props.C02
 import XcmModel.Props.C07
 /-!
@@ -191,3 +192,110 @@ example :
   decide
 
 end XcmModel.C06
+
+/-! ## btls (xcm_tp_btls.c): the TLS connection machine -/
+namespace XcmModel.C06btls
+open XcmModel XcmModel.Btls
+
+/-- after the close was seen: receive 0, send/finish EPIPE, for ever -/
+theorem C06_btls_closed_behaviour (s : St) (hs : s.state = .closed) :
+    (∀ cap h r, (receive s cap h r) = (s, .n 0 [], false)) ∧
+    (∀ buf h w, (send s buf h w) = (s, .err EPIPE, false)) ∧
+    (∀ h l, (finish s h l) = (s, .err EPIPE)) := by
+  have ht : ∀ a, tryFinishHandshake s a = s := tfh_terminal (Or.inl hs)
+  refine ⟨fun cap h r => ?_, fun buf h w => ?_, fun h l => ?_⟩
+  · simp [receive, ht, hs]
+  · simp [send, ht, hs]
+  · simp [finish, ht, hs]
+
+/-- after a failure: the same errno from every call, for ever, and no OpenSSL call is made any more -/
+theorem C06_btls_bad_same_errno (s : St) (e : Nat) (hs : s.state = .bad e) :
+    (∀ cap h r, (receive s cap h r) = (s, .err e, false)) ∧
+    (∀ buf h w, (send s buf h w) = (s, .err e, false)) ∧
+    (∀ h l, (finish s h l) = (s, .err e)) := by
+  have ht : ∀ a, tryFinishHandshake s a = s := tfh_terminal (Or.inr ⟨e, hs⟩)
+  refine ⟨fun cap h r => ?_, fun buf h w => ?_, fun h l => ?_⟩
+  · simp [receive, ht, hs]
+  · simp [send, ht, hs]
+  · simp [finish, ht, hs]
+
+/-- the call that discovers the failure reports exactly the errno that becomes sticky (send) -/
+theorem C06_btls_send_discovers (s : St) (buf : Bytes) (h : HAns) (w : WAns) :
+    (∀ e, (send s buf h w).1.state = .bad e → (send s buf h w).2.1 = .err e) ∧
+    ((send s buf h w).1.state = .closed → (send s buf h w).2.1 = .err EPIPE) := by
+  unfold send
+  generalize tryFinishHandshake s h = s1
+  simp only
+  split
+  · rename_i e' hs; exact ⟨fun e hb => by simp only [hs] at hb; cases hb; rfl, fun hb => by simp [hs] at hb⟩
+  · rename_i hs; exact ⟨fun e hb => by simp [hs] at hb, fun _ => rfl⟩
+  · rename_i hs; exact ⟨fun e hb => by simp [hs] at hb, fun hb => by simp [hs] at hb⟩
+  · rename_i hs
+    split
+    · exact ⟨fun e hb => by simp [hs] at hb, fun hb => by simp [hs] at hb⟩
+    · cases w with
+      | n k => exact ⟨fun e hb => by simp [hs] at hb, fun hb => by simp [hs] at hb⟩
+      | zero => exact ⟨fun e hb => by simp at hb, fun _ => rfl⟩
+      | ev ev =>
+        simp only
+        split <;> rename_i h3
+        · exact ⟨fun e hb => by simp [h3] at hb, fun _ => rfl⟩
+        · exact ⟨fun e hb => by simp only [h3] at hb; cases hb; rfl, fun hb => by simp [h3] at hb⟩
+        · exact ⟨fun e hb => by simp_all, fun hb => by simp_all⟩
+
+/-- ... (receive): a failure is reported with its errno, a close as 0 -/
+theorem C06_btls_receive_discovers (s : St) (cap : Nat) (h : HAns) (r : RAns) :
+    (∀ e, (receive s cap h r).1.state = .bad e → (receive s cap h r).2.1 = .err e) ∧
+    ((receive s cap h r).1.state = .closed → (receive s cap h r).2.1 = .n 0 []) := by
+  unfold receive
+  generalize tryFinishHandshake s h = s1
+  simp only
+  split
+  · rename_i e' hs; exact ⟨fun e hb => by simp only [hs] at hb; cases hb; rfl, fun hb => by simp [hs] at hb⟩
+  · rename_i hs; exact ⟨fun e hb => by simp [hs] at hb, fun _ => rfl⟩
+  · rename_i hs; exact ⟨fun e hb => by simp [hs] at hb, fun hb => by simp [hs] at hb⟩
+  · rename_i hs
+    cases r with
+    | data bs =>
+      simp only
+      split
+      · exact ⟨fun e hb => by simp [hs] at hb, fun hb => by simp [hs] at hb⟩
+      · exact ⟨fun e hb => by simp [hs] at hb, fun hb => by simp [hs] at hb⟩
+    | ev ev =>
+      simp only
+      split <;> rename_i h3
+      · exact ⟨fun e hb => by simp [h3] at hb, fun _ => rfl⟩
+      · exact ⟨fun e hb => by simp only [h3] at hb; cases hb; rfl, fun hb => by simp [h3] at hb⟩
+      · exact ⟨fun e hb => by simp_all, fun hb => by simp_all⟩
+
+/-- ... (finish) -/
+theorem C06_btls_finish_discovers (s : St) (h : HAns) (l : Option Nat) :
+    (∀ e, (finish s h l).1.state = .bad e → (finish s h l).2 = .err e) ∧
+    ((finish s h l).1.state = .closed → (finish s h l).2 = .err EPIPE) := by
+  unfold finish
+  generalize tryFinishHandshake s h = s1
+  simp only
+  split <;> rename_i hs
+  · exact ⟨fun e hb => by simp [hs] at hb, fun hb => by simp [hs] at hb⟩
+  · exact ⟨fun e hb => by simp [hs] at hb, fun hb => by simp [hs] at hb⟩
+  · exact ⟨fun e hb => by simp only [hs] at hb; cases hb; rfl, fun hb => by simp [hs] at hb⟩
+  · exact ⟨fun e hb => by simp [hs] at hb, fun _ => rfl⟩
+
+/-- terminal states are absorbing under every continuation -/
+theorem C06_btls_sticky (s : St) (ht : Terminal s) (ops : List Op) : run s ops = s := run_terminal ops ht
+
+/-- how `process_ssl_event` classifies (every errno the kernel can raise below OpenSSL): a protocol
+error is EPROTO, an orderly or early close is `closed`, any other errno is reported as itself -/
+theorem C06_btls_classification (s : St) (c : Nat) (hs : ¬ Terminal s) :
+    (processSslEvent s c .sslErr).state = .bad EPROTO ∧
+    (processSslEvent s c .zeroReturn).state = .closed ∧
+    (∀ e, (processSslEvent s c (.syscall e true)).state = .bad EPROTO) ∧
+    (processSslEvent s c (.syscall EPIPE false)).state = .closed ∧
+    (processSslEvent s c (.syscall 0 false)).state = .closed ∧
+    (∀ e, e ≠ EAGAIN → e ≠ EINPROGRESS → e ≠ EPIPE → e ≠ 0 → (processSslEvent s c (.syscall e false)).state = .bad e) := by
+  refine ⟨rfl, rfl, fun e => rfl, ?_, ?_, fun e h1 h2 h3 h4 => ?_⟩
+  · simp [processSslEvent, EPIPE, EAGAIN, EINPROGRESS, Generated.EPIPE, Generated.EAGAIN, Generated.EINPROGRESS]
+  · simp [processSslEvent, EPIPE, EAGAIN, EINPROGRESS, Generated.EPIPE, Generated.EAGAIN, Generated.EINPROGRESS]
+  simp [processSslEvent, h1, h2, h3, h4]
+
+end XcmModel.C06btls
